@@ -83,7 +83,7 @@ def Clause.specificity (c : Clause) : Nat :=
 
 inductive QErr where
   | appendTable | dotProduct | objectNotNodeNorPredicate | boundAliasNil | boundAliasMissing | sumNoRows
-  | sumNotNumber | projectUnknown | lookup | missingGraph | other
+  | sumNotNumber | sumOverflow | sumOrderDependent | projectUnknown | lookup | missingGraph | other
   deriving DecidableEq, Repr
 
 def objCell : Obj → Cell
